@@ -1,17 +1,421 @@
 /-
-  TE.Driver.Binned — protocol adapters of the Binned family (see TE/Driver/Count.lean for the conventions).
+  TE.Driver.Binned — protocol adapters of the Binned family (see TE/Driver/Count.lean for the conventions):
+  unpack tensors, perform the parameter / shape checks of the real functionals, call the typed models of
+  TE/Model/Binned.lean, render.  `spec.<functional>` requests evaluate the definitions of TE/Spec/Binned.lean.
+
+  Threshold argument: a 1-D tensor (the harness sends the exact float32 values `torch.linspace` produced), or an
+  integer literal `n` — expanded here to the exact grid `i/(n-1)` only when that grid is float32-exact
+  (`n-1` a power of two, or `n ≤ 2`); any other integer is answered with `bad` (the caller must send the tensor).
 -/
 import TE.Driver.Fam
+import TE.Model.Binned
+import TE.Spec.Binned
 namespace TE.Driver
-open TE
+open TE TE.Binned
 
-/-- (functional name, class name, configured family) — sufficient-statistic / cache-all classes. -/
-def binnedFams : List (String × String × (Args → Except String Fam)) := []
+namespace Bn
 
-/-- (class name, packaged class model) — classes that are not `additive` (own state machine). -/
-def binnedPacks : List (String × (Args → Except String Pack)) := []
+def natsOf (d : List Q) : Except String (List Nat) :=
+  d.mapM fun q => match qToNat? q with
+    | some n => .ok n | none => .error "binned models need natural-number targets"
 
-/-- (request name, handler) — functionals without a class twin and `spec.*` oracles. -/
-def binnedFns : List (String × (Args → Except Err String)) := []
+def isPow2 (n : Nat) : Bool := n != 0 && (n &&& (n - 1)) == 0
+
+/-- threshold values of a request / configuration (`dflt` = the functional's default count). -/
+def thrOf (a : Args) (dflt : Nat) : Except String (List Q) :=
+  let ofInt (n : Nat) : Except String (List Q) :=
+    if n = 0 then .ok [] else
+    if n ≤ 2 || isPow2 (n - 1) then .ok (linspaceExact n)
+    else .error s!"integer threshold {n}: linspace is not float32-exact, send the tensor"
+  match a.get? "threshold" with
+  | some (.t x) => if x.ndim = 1 then .ok x.data else .error "threshold tensor must be 1-D on the modelled paths"
+  | some (.s s) => match s.toNat? with
+    | some n => ofInt n
+    | none => .error s!"bad threshold '{s}'"
+  | none => ofInt dflt
+  | _ => .error "bad threshold"
+
+def optOf (a : Args) : Option Opt :=
+  match a.strD "optimization" "vectorized" with
+  | "vectorized" => some .vectorized | "memory" => some .memory | _ => none
+
+/-- `average` of the AUROC / AUPRC forms: `some true` = macro, `some false` = none/None, `none` = rejected. -/
+def avgOf (a : Args) : Option Bool :=
+  match a.strD "average" "macro" with
+  | "macro" => some true | "none" => some false | _ => none
+
+def io (a : Args) : Except Err (T × T) := liftP do
+  let i ← a.tensor "input"; let t ← a.tensor "target"; pure (i, t)
+
+def natRows (x : T) : Except String (List (List Nat)) := x.rows.mapM natsOf
+
+def unflat (v : List Q) (rows cols : Nat) : Mat :=
+  (List.range rows).map fun r => (v.drop (r * cols)).take cols
+
+def showCurves (cs : List (List XQ × List XQ)) (t : List Q) : String :=
+  " ".intercalate (cs.map (fun c => showVecX c.1) ++ cs.map (fun c => showVecX c.2) ++ [showVecQ t])
+
+/-- `_multiclass_precision_recall_curve_update_input_check` -/
+def mcShapeOk (i t : T) (nc : Option Nat) : Bool :=
+  i.ndim ≥ 1 && t.ndim ≥ 1 && i.shape.head? == t.shape.head? && t.ndim == 1 &&
+  i.ndim == 2 && (nc.isNone || i.shape[1]? == nc)
+
+/-- `_multilabel_precision_recall_curve_update_input_check` -/
+def mlShapeOk (i t : T) (nl : Nat) : Bool :=
+  i.shape == t.shape && i.ndim == 2 && i.shape[1]? == some nl
+
+/-- sufficient statistics of the multiclass binned curve: three `(T, C)` matrices, flattened. -/
+def mcStat (t : List Q) (nc : Option Nat) (opt : Option Opt) (a : Args) : Except Err (Mat × Mat × Mat) := do
+  let some o := opt | throw .value
+  paramCheck t
+  let (i, tg) ← io a
+  if !mcShapeOk i tg nc then throw .value
+  let C := i.shape[1]?.getD 0
+  let labs ← liftP (natsOf tg.data)
+  match o with
+  | .vectorized => mcVectorized t C i.rows labs
+  | .memory => mcMemory t C i.rows labs
+
+def mlStat (t : List Q) (nl : Option Nat) (opt : Option Opt) (functional : Bool) (a : Args) :
+    Except Err (Mat × Mat × Mat) := do
+  let some o := opt | throw .value
+  paramCheck t
+  let (i, tg) ← io a
+  if functional && i.ndim != 2 then throw .value
+  let L := nl.getD (i.shape[1]?.getD 0)
+  if !mlShapeOk i tg L then throw .value
+  let tgts ← liftP (natRows tg)
+  match o with
+  | .vectorized => .ok (mlVectorized t L i.rows tgts)
+  | .memory => mlMemory t L i.rows tgts
+
+def partsOf (m : Mat × Mat × Mat) : Parts := [m.1.flatten, m.2.1.flatten, m.2.2.flatten]
+
+def matsOf (p : Parts) (T S : Nat) : Mat × Mat × Mat :=
+  (unflat (part p 0 (T * S)) T S, unflat (part p 1 (T * S)) T S, unflat (part p 2 (T * S)) T S)
+
+/-- per-task `(num_tp, num_fp, num_fn)` of the binary binned AUPRC forms
+    (`_binary_binned_auprc_update_input_check` + `_update` per row). -/
+def binAuprcStat (t : List Q) (numTasks : Nat) (a : Args) : Except Err (List (List Q × List Q × List Q)) := do
+  if numTasks < 1 then throw .value
+  auprcParamCheck t
+  let (i, tg) ← io a
+  if i.shape != tg.shape then throw .value
+  if numTasks == 1 && !(i.ndim == 1 || i.ndim == 2) then throw .value
+  if numTasks != 1 && (i.ndim != 2 || i.shape.head? != some numTasks) then throw .value
+  let xs := if i.ndim == 1 then [i.data] else i.rows
+  let ys ← liftP (if tg.ndim == 1 then (do pure [← natsOf tg.data]) else natRows tg)
+  if xs.length < numTasks then throw .index
+  ((xs.zip ys).take numTasks).mapM fun p => binaryUpdate t p.1 p.2
+
+def showAvg (isMacro : Bool) (vals : List Q) : String :=
+  if isMacro then showScalarX (meanX vals) else showVecQ vals
+
+/-- columns of a `(num_tasks, n)` pair of tensors (a 1-D tensor is one task): the cache of `BinaryBinnedAUROC`. -/
+def taskCols (i tg : T) : List (List Q × List Q) :=
+  let xs := if i.ndim == 1 then [i.data] else i.rows
+  let ys := if tg.ndim == 1 then [tg.data] else tg.rows
+  let n := (xs.headD []).length
+  (List.range n).map fun j => (xs.map (·.getD j 0), ys.map (·.getD j 0))
+
+def colsToTasks (numTasks : Nat) (cols : List (List Q × List Q)) : List (List Q × List Q) :=
+  (List.range numTasks).map fun k => (cols.map (·.1.getD k 0), cols.map (·.2.getD k 0))
+
+end Bn
+open Bn
+
+/- ---------- binned precision-recall curves ---------- -/
+
+def famBinaryBinnedPRC (cfg : Args) : Except String Fam := do
+  let t ← thrOf cfg 100
+  let T := t.length
+  pure {
+    stat := fun a => do
+      paramCheck t
+      let (i, tg) ← io a
+      if !(i.ndim == 1 && tg.ndim == 1 && i.shape == tg.shape) then throw .value
+      let ys ← liftP (natsOf tg.data)
+      let (tp, fp, fn) ← binaryUpdate t i.data ys
+      pure [tp, fp, fn]
+    outA := fun p => do
+      paramCheck t
+      let c := curveCompute (part p 0 T) (part p 1 T) (part p 2 T)
+      pure (showCurves [c] t) }
+
+def famMulticlassBinnedPRC (cfg : Args) : Except String Fam := do
+  let t ← thrOf cfg 100
+  let nc ← cfg.nat? "num_classes"
+  let opt := optOf cfg
+  -- the functional derives `num_classes` from a 2-D input when it is not given
+  let C := match nc, cfg.get? "input" with
+    | some c, _ => c
+    | none, some (.t x) => x.shape[1]?.getD 0
+    | _, _ => 0
+  pure {
+    stat := fun a => do pure (partsOf (← mcStat t nc opt a))
+    outA := fun p => do
+      if opt.isNone then throw .value
+      paramCheck t
+      let (tp, fp, fn) := matsOf p t.length C
+      pure (showCurves (curveComputeMat C tp fp fn) t) }
+
+def famMultilabelBinnedPRC (cfg : Args) : Except String Fam := do
+  let t ← thrOf cfg 100
+  let nl ← cfg.nat? "num_labels"
+  let opt := optOf cfg
+  let functional := (cfg.get? "input").isSome
+  let L := match nl, cfg.get? "input" with
+    | some c, _ => c
+    | none, some (.t x) => x.shape[1]?.getD 0
+    | _, _ => 0
+  pure {
+    stat := fun a => do pure (partsOf (← mlStat t nl opt functional a))
+    outA := fun p => do
+      if opt.isNone then throw .value
+      paramCheck t
+      let (tp, fp, fn) := matsOf p t.length L
+      pure (showCurves (curveComputeMat L tp fp fn) t) }
+
+/- ---------- binned AUPRC (class-shaped output: the value only) ---------- -/
+
+def binAuprcVals (p : Parts) (numTasks T : Nat) : List Q :=
+  let (tp, fp, fn) := matsOf p numTasks T
+  (List.range numTasks).map fun k => auprcOf (tp.getD k []) (fp.getD k []) (fn.getD k [])
+
+def famBinaryBinnedAUPRC (cfg : Args) : Except String Fam := do
+  let t ← thrOf cfg 100
+  let numTasks := (← cfg.nat? "num_tasks").getD 1
+  pure {
+    stat := fun a => do
+      let rows ← binAuprcStat t numTasks a
+      pure [(rows.map (·.1)).flatten, (rows.map (·.2.1)).flatten, (rows.map (·.2.2)).flatten]
+    outA := fun p => do
+      if numTasks < 1 then throw .value
+      auprcParamCheck t
+      let vals := binAuprcVals p numTasks t.length
+      pure (if numTasks == 1 then showTQ [] vals else showVecQ vals) }
+
+def colAuprcs (S : Nat) (m : Mat × Mat × Mat) : List Q :=
+  (List.range S).map fun s => auprcOf (column m.1 s) (column m.2.1 s) (column m.2.2 s)
+
+def famMulticlassBinnedAUPRC (cfg : Args) : Except String Fam := do
+  let t ← thrOf cfg 100
+  let nc ← cfg.nat? "num_classes"
+  let opt := optOf cfg
+  let avg := avgOf cfg
+  let C := match nc, cfg.get? "input" with
+    | some c, _ => c
+    | none, some (.t x) => x.shape[1]?.getD 0
+    | _, _ => 0
+  let ok : Except Err Unit := do
+    if opt.isNone then throw .value
+    if avg.isNone then throw .value
+    if C < 2 then throw .value
+    auprcParamCheck t
+  pure {
+    stat := fun a => do
+      ok
+      pure (partsOf (← mcStat t (some C) opt a))
+    outA := fun p => do
+      ok
+      pure (showAvg (avg.getD true) (colAuprcs C (matsOf p t.length C))) }
+
+def famMultilabelBinnedAUPRC (cfg : Args) : Except String Fam := do
+  let t ← thrOf cfg 100
+  let nl ← cfg.nat? "num_labels"
+  let opt := optOf cfg
+  let avg := avgOf cfg
+  let L := match nl, cfg.get? "input" with
+    | some c, _ => c
+    | none, some (.t x) => x.shape[1]?.getD 0
+    | _, _ => 0
+  let ok : Except Err Unit := do
+    if opt.isNone then throw .value
+    if avg.isNone then throw .value
+    if L < 2 then throw .value
+    auprcParamCheck t
+  pure {
+    stat := fun a => do
+      ok
+      pure (partsOf (← mlStat t (some L) opt false a))
+    outA := fun p => do
+      ok
+      pure (showAvg (avg.getD true) (colAuprcs L (matsOf p t.length L))) }
+
+/-- the functionals return `(auprc, threshold)`; a 2-D input with `num_tasks = 1` gives shape `(1,)`. -/
+def fnBinaryBinnedAuprc (a : Args) : Except Err String := do
+  let t ← liftP (thrOf a 100)
+  let numTasks := (← liftP (a.nat? "num_tasks")).getD 1
+  let rows ← binAuprcStat t numTasks a
+  let vals := rows.map fun r => auprcOf r.1 r.2.1 r.2.2
+  let (i, _) ← io a
+  pure ((if numTasks == 1 && i.ndim == 1 then showTQ [] vals else showVecQ vals) ++ " " ++ showVecQ t)
+
+def withThr (mk : Args → Except String Fam) (a : Args) : Except Err String := do
+  let f ← liftP (mk a)
+  let t ← liftP (thrOf a 100)
+  let s ← f.fn a
+  pure (s ++ " " ++ showVecQ t)
+
+/- ---------- binned AUROC (cache-all classes) ---------- -/
+
+structure AurocCfg where
+  t : List Q
+  numTasks : Nat
+
+def binAurocStat (c : AurocCfg) (a : Args) : Except Err (List (List Q × List Q)) := do
+  if c.numTasks < 1 then throw .value
+  paramCheck c.t
+  let (i, tg) ← io a
+  if i.shape != tg.shape then throw .value
+  if i.ndim > 2 then throw .value
+  if c.numTasks == 1 && i.ndim > 1 then throw .value
+  if c.numTasks != 1 && (i.ndim == 1 || i.shape.head? != some c.numTasks) then throw .value
+  if i.ndim == 0 then throw .other
+  pure (taskCols i tg)
+
+def binAurocOut (c : AurocCfg) (cols : List (List Q × List Q)) : Except Err String := do
+  if c.numTasks < 1 then throw .value
+  paramCheck c.t
+  -- torch.cat of an empty list of cached tensors
+  if cols.isEmpty then throw .runtime
+  pure (showVecQ (binaryBinnedAuroc c.t (colsToTasks c.numTasks cols)) ++ " " ++ showVecQ c.t)
+
+def aurocCfgOf (cfg : Args) : Except String AurocCfg := do
+  pure { t := ← thrOf cfg 200, numTasks := (← cfg.nat? "num_tasks").getD 1 }
+
+def packBinaryBinnedAUROC (cfg : Args) : Except String Pack :=
+  match aurocCfgOf cfg with
+  | .ok c => .ok ⟨_, additive (listAcc (List Q × List Q)) (binAurocStat c) (binAurocOut c)⟩
+  | .error m => .error m
+
+/-- the functional: an empty batch is fine (`0.5`), there is no `torch.cat`. -/
+def fnBinaryBinnedAuroc (a : Args) : Except Err String := do
+  let c ← liftP (aurocCfgOf a)
+  let cols ← binAurocStat c a
+  pure (showVecQ (binaryBinnedAuroc c.t (colsToTasks c.numTasks cols)) ++ " " ++ showVecQ c.t)
+
+structure McAurocCfg where
+  t : List Q
+  C : Nat
+  avg : Option Bool
+
+def mcAurocParamOk (c : McAurocCfg) : Except Err Unit := do
+  if c.avg.isNone then throw .value
+  if c.C < 2 then throw .value
+  paramCheck c.t
+
+def mcAurocStat (c : McAurocCfg) (a : Args) : Except Err (List (List Q × Nat)) := do
+  mcAurocParamOk c
+  let (i, tg) ← io a
+  if !mcShapeOk i tg (some c.C) then throw .value
+  let labs ← liftP (natsOf tg.data)
+  pure (i.rows.zip labs)
+
+def mcAurocOut (c : McAurocCfg) (needData : Bool) (s : List (List Q × Nat)) : Except Err String := do
+  mcAurocParamOk c
+  if needData && s.isEmpty then throw .runtime
+  -- F.one_hot(target, num_classes)
+  if !(s.all fun p => p.2 < c.C) then throw .runtime
+  let vals := mcBinnedAuroc c.t c.C (s.map (·.1)) (s.map (·.2))
+  pure (showAvg (c.avg.getD true) vals ++ " " ++ showVecQ c.t)
+
+def mcAurocCfgOf (cfg : Args) : Except String McAurocCfg := do
+  pure { t := ← thrOf cfg 200, C := ← cfg.nat "num_classes", avg := avgOf cfg }
+
+def packMulticlassBinnedAUROC (cfg : Args) : Except String Pack :=
+  match mcAurocCfgOf cfg with
+  | .ok c => .ok ⟨_, additive (listAcc (List Q × Nat)) (mcAurocStat c) (mcAurocOut c true)⟩
+  | .error m => .error m
+
+def fnMulticlassBinnedAuroc (a : Args) : Except Err String := do
+  let c ← liftP (mcAurocCfgOf a)
+  mcAurocStat c a >>= mcAurocOut c false
+
+/- ---------- spec oracles ---------- -/
+
+namespace BnSpec
+open TE.Spec.Binned
+
+def curveOut (ss : List Samples) (t : List Q) : String :=
+  showCurves (ss.map fun s => curve s t) t
+
+/-- samples with their scores rounded down to the threshold grid (`none`: a score below every threshold —
+    outside the statement). -/
+def floored (t : List Q) (s : Samples) : Option Samples :=
+  s.mapM fun p => (floorTo? t p.1).map fun v => (v, p.2)
+
+def binSamples (a : Args) : Except Err (List Samples) := do
+  let (i, tg) ← io a
+  let xs := if i.ndim == 1 then [i.data] else i.rows
+  let ys ← liftP (if tg.ndim == 1 then (do pure [← natsOf tg.data]) else natRows tg)
+  pure ((xs.zip ys).map fun p => p.1.zip p.2)
+
+def mcSamples (a : Args) : Except Err (List Samples) := do
+  let (i, tg) ← io a
+  let labs ← liftP (natsOf tg.data)
+  let C := ((← liftP (a.nat? "num_classes")).getD (i.shape[1]?.getD 0))
+  pure ((List.range C).map fun c => ovr i.rows labs c)
+
+def mlSamples (a : Args) : Except Err (List Samples) := do
+  let (i, tg) ← io a
+  let tgts ← liftP (natRows tg)
+  let L := ((← liftP (a.nat? "num_labels")).getD (i.shape[1]?.getD 0))
+  pure ((List.range L).map fun l => labelCol i.rows tgts l)
+
+def flooredAll (t : List Q) (ss : List Samples) : Except Err (List Samples) :=
+  match ss.mapM (floored t) with
+  | some r => .ok r
+  | none => .error .other
+
+def specCurve (get : Args → Except Err (List Samples)) (a : Args) : Except Err String := do
+  let t ← liftP (thrOf a 100)
+  pure (curveOut (← get a) t)
+
+def specArea (f : Samples → Q) (get : Args → Except Err (List Samples)) (vec : Bool) (a : Args) :
+    Except Err String := do
+  let t ← liftP (thrOf a 100)
+  let ss ← flooredAll t (← get a)
+  let vals := ss.map f
+  let some isMacro := avgOf a | throw .value
+  pure ((if vec then showVecQ vals else showAvg isMacro vals) ++ " " ++ showVecQ t)
+
+end BnSpec
+open BnSpec TE.Spec.Binned
+
+/-- (functional name, class name, configured family) — sufficient-statistic classes.
+    The AUPRC classes return the value only whereas their functionals return `(value, threshold)`: the family is
+    registered under `first.<functional>` and the functional itself in `binnedFns`. -/
+def binnedFams : List (String × String × (Args → Except String Fam)) := [
+  ("binary_binned_precision_recall_curve", "BinaryBinnedPrecisionRecallCurve", famBinaryBinnedPRC),
+  ("multiclass_binned_precision_recall_curve", "MulticlassBinnedPrecisionRecallCurve", famMulticlassBinnedPRC),
+  ("multilabel_binned_precision_recall_curve", "MultilabelBinnedPrecisionRecallCurve", famMultilabelBinnedPRC),
+  ("first.binary_binned_auprc", "BinaryBinnedAUPRC", famBinaryBinnedAUPRC),
+  ("first.multiclass_binned_auprc", "MulticlassBinnedAUPRC", famMulticlassBinnedAUPRC),
+  ("first.multilabel_binned_auprc", "MultilabelBinnedAUPRC", famMultilabelBinnedAUPRC)
+]
+
+/-- (class name, packaged class model) — cache-all classes (`additive (listAcc _)`). -/
+def binnedPacks : List (String × (Args → Except String Pack)) := [
+  ("BinaryBinnedAUROC", packBinaryBinnedAUROC),
+  ("MulticlassBinnedAUROC", packMulticlassBinnedAUROC)
+]
+
+/-- (request name, handler) — functionals without a `Fam` twin and `spec.*` oracles. -/
+def binnedFns : List (String × (Args → Except Err String)) := [
+  ("binary_binned_auroc", fnBinaryBinnedAuroc),
+  ("multiclass_binned_auroc", fnMulticlassBinnedAuroc),
+  ("binary_binned_auprc", fnBinaryBinnedAuprc),
+  ("multiclass_binned_auprc", withThr famMulticlassBinnedAUPRC),
+  ("multilabel_binned_auprc", withThr famMultilabelBinnedAUPRC),
+  ("spec.binary_binned_precision_recall_curve", specCurve binSamples),
+  ("spec.multiclass_binned_precision_recall_curve", specCurve mcSamples),
+  ("spec.multilabel_binned_precision_recall_curve", specCurve mlSamples),
+  ("spec.binary_binned_auroc", specArea aurocSpec binSamples true),
+  ("spec.multiclass_binned_auroc", specArea aurocSpec mcSamples false),
+  ("spec.binary_binned_auprc", specArea auprcSpec binSamples true),
+  ("spec.multiclass_binned_auprc", specArea auprcSpec mcSamples false),
+  ("spec.multilabel_binned_auprc", specArea auprcSpec mlSamples false)
+]
 
 end TE.Driver
